@@ -241,7 +241,10 @@ func c09(r *vlib.Run) int {
 				l = `no-pty,command="echo hi" ` + l
 				shape["options"] = true
 			case 1:
-				l = l + " user@host some comment"
+				// free text behind the key: anything, also words that look like parts of a key line
+				typ := strings.Fields(pool[k].AuthKey)[0]
+				l = l + " " + []string{"user@host some comment", "alice's " + typ + " key", typ + " " + typ, "ssh-rsa AAAAB3NzaC1yc2E= old key, replaced",
+					"# not a comment", "key for " + typ + " AAAA", `command="x" no-pty`, "ecdsa-sha2-nistp256"}[lrng.Intn(8)]
 				shape["keycomment"] = true
 			case 2:
 				l = `from="10.0.0.0/8",no-agent-forwarding ` + l + " c"
